@@ -9,6 +9,7 @@ mod dot;
 mod formulas;
 mod tablecheck;
 mod props;
+mod puzzles;
 mod refl;
 mod robdd;
 mod runner;
